@@ -177,6 +177,13 @@ Definition num_toks (t : list N) : list (token * list ecode) :=
   | u => [tk (if num_is_float u then TFloat else TInt) u]
   end.
 
+Lemma num_toks_other c r : c <> 45 ->
+  num_toks (c :: r) = [tk (if num_is_float (c :: r) then TFloat else TInt) (c :: r)].
+Proof.
+  intros Hc. unfold num_toks. destruct c as [|p]; [reflexivity|].
+  repeat (destruct p as [p|p|]; try reflexivity). contradiction.
+Qed.
+
 Definition key_tok (bare : bool) (k : list N) : token * list ecode :=
   if bare then tk TIdent k else tk TString (go_quote is_print k).
 
@@ -423,3 +430,211 @@ Proof.
 Qed.
 
 End Printer.
+
+(** ** Step 2: the token filters.  Line ends inside a printed value always
+    follow "[", "{" or ",", so the semicolon inserter drops them; the value
+    ends with a token after which a line end becomes a separator. *)
+
+Definition pt (acc : list ecode) (te : token * list ecode) : ptok :=
+  mkP (tty (fst te)) (tlit (fst te)) acc.
+
+Definition mkp (acc : list ecode) (tl : ttype * list N) : ptok := mkP (fst tl) (snd tl) acc.
+
+Section Filters.
+Variable is_print : N -> bool.
+
+Definition num_ft (t : list N) : list (ttype * list N) :=
+  match t with
+  | 45 :: u => [(TOperator, [45]); (if num_is_float u then TFloat else TInt, u)]
+  | u => [(if num_is_float u then TFloat else TInt, u)]
+  end.
+
+Lemma num_ft_other c r : c <> 45 ->
+  num_ft (c :: r) = [(if num_is_float (c :: r) then TFloat else TInt, c :: r)].
+Proof.
+  intros Hc. unfold num_ft. destruct c as [|p]; [reflexivity|].
+  repeat (destruct p as [p|p|]; try reflexivity). contradiction.
+Qed.
+
+Definition key_ft (bare : bool) (k : list N) : ttype * list N :=
+  if bare then (TIdent, k) else (TString, go_quote is_print k).
+
+(** Tokens the parser receives for a printed value. *)
+Fixpoint ft (v : pvalue) : list (ttype * list N) :=
+  match v with
+  | PNull => [(TKeyword, lit_null)]
+  | PBool b => [(TKeyword, if b then lit_true else lit_false)]
+  | PNum t => num_ft t
+  | PStr s => [(TString, go_quote is_print s)]
+  | PArr [] => [(TOperator, [91]); (TOperator, [93])]
+  | PArr l =>
+      (TOperator, [91]) :: flat_map (fun x => ft x ++ [(TOperator, [44])]) l
+        ++ [(TOperator, [93])]
+  | PObj [] => [(TOperator, [123]); (TOperator, [125])]
+  | PObj l =>
+      let bare := forallb (fun kv => is_ident_key (fst kv)) l in
+      (TOperator, [123])
+        :: flat_map (fun kt : list N * list (ttype * list N) =>
+                       key_ft bare (fst kt) :: (TOperator, [58]) :: snd kt ++ [(TOperator, [44])])
+             (sort_keys (map (fun kv => let '(k, x) := kv in (k, ft x)) l))
+        ++ [(TOperator, [125])]
+  end.
+
+Lemma ft_obj l : l <> [] ->
+  ft (PObj l) =
+  let bare := forallb (fun kv => is_ident_key (fst kv)) l in
+  (TOperator, [123])
+    :: flat_map (fun kv : list N * pvalue =>
+                   key_ft bare (fst kv) :: (TOperator, [58]) :: ft (snd kv) ++ [(TOperator, [44])])
+         (sort_keys l)
+    ++ [(TOperator, [125])].
+Proof.
+  intros Hne. destruct l as [|m l']; [contradiction|]. cbn [ft]. cbv zeta.
+  f_equal. f_equal.
+  replace (map (fun kv : list N * pvalue => let '(k, x) := kv in (k, ft x)) (m :: l'))
+    with (map (fun kv : list N * pvalue => (fst kv, ft (snd kv))) (m :: l'))
+    by (apply map_ext; intros [k x]; reflexivity).
+  rewrite (sort_keys_map ft).
+  generalize (sort_keys (m :: l')). intros sl.
+  induction sl as [|[k x] sl IH]; cbn [map flat_map fst snd]; [reflexivity|]. now rewrite IH.
+Qed.
+
+Definition F2 (acc fin : list ecode) (raw : list (token * list ecode)) (out : list (ttype * list N)) : Prop :=
+  forall flag rest,
+    map keyword_tok (semi_ins flag fin (map (pt acc) raw ++ rest))
+    = map (mkp acc) out ++ map keyword_tok (semi_ins true fin rest).
+
+Lemma is_ident_key_not_keyword k : is_ident_key k = true -> is_keyword k = false.
+Proof.
+  unfold is_ident_key. destruct k as [|c r]; [discriminate|]. intros H.
+  apply andb_true_iff in H as [H _]. apply andb_true_iff in H as [H _].
+  now apply negb_true_iff in H.
+Qed.
+
+Lemma num_is_float_ty u : (if num_is_float u then TFloat else TInt) <> TSemi /\
+  (if num_is_float u then TFloat else TInt) <> TOperator /\
+  (if num_is_float u then TFloat else TInt) <> TEndl /\
+  (if num_is_float u then TFloat else TInt) <> TComment /\
+  (if num_is_float u then TFloat else TInt) <> TEOF /\
+  (if num_is_float u then TFloat else TInt) <> TIdent.
+Proof. destruct (num_is_float u); repeat split; discriminate. Qed.
+
+Lemma semi_op c acc flag fin tl :
+  semi_ins flag fin (mkP TOperator [c] acc :: tl)
+  = mkP TOperator [c] acc :: semi_ins ((c =? 125) || (c =? 93)) fin tl.
+Proof.
+  cbn [semi_ins pty]. unfold lit_is. cbn [plit list_N_eqb]. now rewrite !andb_true_r.
+Qed.
+
+Lemma kw_op c acc : keyword_tok (mkP TOperator [c] acc) = mkP TOperator [c] acc.
+Proof. reflexivity. Qed.
+
+Lemma F2_filters acc fin : forall v, F2 acc fin (rt is_print v) (ft v).
+Proof.
+  assert (Hop : forall c raw out, (c =? 125) || (c =? 93) = false ->
+            (forall rest, map keyword_tok (semi_ins false fin (map (pt acc) raw ++ rest))
+                          = map (mkp acc) out ++ map keyword_tok (semi_ins true fin rest)) ->
+            F2 acc fin (tk TOperator [c] :: raw) ((TOperator, [c]) :: out)).
+  { intros c raw out Hc H flag rest.
+    change (map (pt acc) (tk TOperator [c] :: raw) ++ rest)
+      with (mkP TOperator [c] acc :: (map (pt acc) raw ++ rest)).
+    rewrite semi_op, Hc. cbn [map]. rewrite kw_op, H. reflexivity. }
+  assert (Hendl : forall raw rest,
+            semi_ins false fin (map (pt acc) (tk TEndl [10] :: raw) ++ rest)
+            = semi_ins false fin (map (pt acc) raw ++ rest)) by reflexivity.
+  assert (Hclose : forall c flag rest, (c =? 125) || (c =? 93) = true ->
+            map keyword_tok (semi_ins flag fin (map (pt acc) [tk TOperator [c]] ++ rest))
+            = map (mkp acc) [(TOperator, [c])] ++ map keyword_tok (semi_ins true fin rest)).
+  { intros c flag rest Hc.
+    change (map (pt acc) [tk TOperator [c]] ++ rest) with (mkP TOperator [c] acc :: rest).
+    rewrite semi_op, Hc. reflexivity. }
+  assert (Hcomma : forall flag tl,
+            map keyword_tok (semi_ins flag fin (mkP TOperator [44] acc :: mkP TEndl [10] acc :: tl))
+            = mkP TOperator [44] acc :: map keyword_tok (semi_ins false fin tl)).
+  { intros flag tl. rewrite semi_op. reflexivity. }
+  induction v as [|b|t|rs|vs IH|ms IH] using pvalue_ind'; intros flag rest.
+  - reflexivity.
+  - destruct b; reflexivity.
+  - cbn [rt ft].
+    assert (Hone : forall u flag, map keyword_tok (semi_ins flag fin
+                (map (pt acc) [tk (if num_is_float u then TFloat else TInt) u] ++ rest))
+              = map (mkp acc) [(if num_is_float u then TFloat else TInt, u)]
+                  ++ map keyword_tok (semi_ins true fin rest)).
+    { intros u fl. cbn [map app pt tk fst snd tty tlit]. destruct (num_is_float u); reflexivity. }
+    destruct t as [|c r]; [apply Hone|].
+    destruct (N.eqb_spec c 45) as [->|Hc].
+    + change (num_toks (45 :: r)) with [tk TOperator [45]; tk (if num_is_float r then TFloat else TInt) r].
+      change (num_ft (45 :: r)) with [(TOperator, [45]); (if num_is_float r then TFloat else TInt, r)].
+      change (map (pt acc) [tk TOperator [45]; tk (if num_is_float r then TFloat else TInt) r] ++ rest)
+        with (mkP TOperator [45] acc :: (map (pt acc) [tk (if num_is_float r then TFloat else TInt) r] ++ rest)).
+      rewrite semi_op. change ((45 =? 125) || (45 =? 93)) with false.
+      rewrite map_cons, kw_op, Hone. reflexivity.
+    + rewrite (num_toks_other c r Hc), (num_ft_other c r Hc). apply Hone.
+  - reflexivity.
+  - (* array *)
+    destruct vs as [|v0 vs'].
+    { cbn [rt ft]. apply (Hop 91 [tk TOperator [93]] [(TOperator, [93])]); [reflexivity|].
+      intros r. now apply (Hclose 93). }
+    set (vs := v0 :: vs') in *.
+    change (rt is_print (PArr vs)) with
+      (tk TOperator [91] :: tk TEndl [10]
+         :: flat_map (fun x => rt is_print x ++ [tk TOperator [44]; tk TEndl [10]]) vs
+         ++ [tk TOperator [93]]).
+    change (ft (PArr vs)) with
+      ((TOperator, [91]) :: flat_map (fun x => ft x ++ [(TOperator, [44])]) vs ++ [(TOperator, [93])]).
+    clearbody vs. apply Hop; [reflexivity|]. intros r. rewrite Hendl.
+    (* any flag works from here on *)
+    generalize false. induction IH as [|x xs Hx Hxs IHxs]; intros fl; cbn [flat_map app].
+    + now apply (Hclose 93).
+    + rewrite !map_app, <- !app_assoc. rewrite (Hx fl). f_equal.
+      change (map (pt acc) [tk TOperator [44]; tk TEndl [10]] ++
+              map (pt acc) (flat_map (fun x0 => rt is_print x0 ++ [tk TOperator [44]; tk TEndl [10]]) xs)
+              ++ map (pt acc) [tk TOperator [93]] ++ r)
+        with (mkP TOperator [44] acc :: mkP TEndl [10] acc ::
+              (map (pt acc) (flat_map (fun x0 => rt is_print x0 ++ [tk TOperator [44]; tk TEndl [10]]) xs)
+              ++ map (pt acc) [tk TOperator [93]] ++ r)).
+      rewrite Hcomma. cbn [map app]. f_equal.
+      specialize (IHxs false). rewrite !map_app, <- !app_assoc in IHxs. exact IHxs.
+  - (* object *)
+    destruct ms as [|m0 ms'].
+    { cbn [rt ft]. apply (Hop 123 [tk TOperator [125]] [(TOperator, [125])]); [reflexivity|].
+      intros r. now apply (Hclose 125). }
+    set (ms := m0 :: ms') in *.
+    rewrite (rt_obj is_print ms ltac:(discriminate)), (ft_obj ms ltac:(discriminate)). cbv zeta.
+    set (bare := forallb (fun kv => is_ident_key (fst kv)) ms).
+    assert (Hbare : bare = true -> Forall (fun kv : list N * pvalue => is_ident_key (fst kv) = true) (sort_keys ms)).
+    { intros Hb. apply Forall_sort_keys. apply Forall_forall. subst bare.
+      rewrite forallb_forall in Hb. exact Hb. }
+    apply Forall_sort_keys in IH.
+    clearbody bare. remember (sort_keys ms) as sm eqn:Esm. clear Esm.
+    apply Hop; [reflexivity|]. intros r. rewrite Hendl.
+    generalize false. induction IH as [|[k x] xs Hx Hxs IHxs]; intros fl; cbn [flat_map app].
+    + now apply (Hclose 125).
+    + cbn [fst snd] in *.
+      assert (Hk : forall tl, map keyword_tok (semi_ins fl fin (pt acc (key_tok is_print bare k) :: tl))
+                  = mkp acc (key_ft bare k) :: map keyword_tok (semi_ins true fin tl)).
+      { intros tl. unfold key_tok, key_ft. destruct bare.
+        - cbn [semi_ins pt tk fst snd tty tlit pty map keyword_tok plit].
+          specialize (Hbare eq_refl). inversion Hbare as [|? ? Hik _]; subst. cbn [fst] in Hik.
+          now rewrite (is_ident_key_not_keyword k Hik).
+        - reflexivity. }
+      cbn [map app]. rewrite Hk. f_equal.
+      change (pt acc (tk TOperator [58])) with (mkP TOperator [58] acc).
+      rewrite semi_op. change ((58 =? 125) || (58 =? 93)) with false.
+      rewrite map_cons, kw_op. cbn [mkp fst snd]. f_equal.
+      rewrite !map_app, <- !app_assoc. rewrite (Hx false). f_equal.
+      change (map (pt acc) [tk TOperator [44]; tk TEndl [10]] ++
+              map (pt acc) (flat_map (fun kv : list N * pvalue =>
+                 key_tok is_print bare (fst kv) :: tk TOperator [58] :: rt is_print (snd kv) ++
+                 [tk TOperator [44]; tk TEndl [10]]) xs) ++ map (pt acc) [tk TOperator [125]] ++ r)
+        with (mkP TOperator [44] acc :: mkP TEndl [10] acc ::
+              (map (pt acc) (flat_map (fun kv : list N * pvalue =>
+                 key_tok is_print bare (fst kv) :: tk TOperator [58] :: rt is_print (snd kv) ++
+                 [tk TOperator [44]; tk TEndl [10]]) xs) ++ map (pt acc) [tk TOperator [125]] ++ r)).
+      rewrite Hcomma. cbn [map app]. f_equal.
+      assert (Hb' : bare = true -> Forall (fun kv : list N * pvalue => is_ident_key (fst kv) = true) xs).
+      { intros Hb. specialize (Hbare Hb). now inversion Hbare. }
+      specialize (IHxs Hb' false). rewrite !map_app, <- !app_assoc in IHxs. exact IHxs.
+Qed.
+
+End Filters.
